@@ -966,8 +966,9 @@ template<typename T, size_t ... ls, size_t ... fs, size_t... ss>
 struct permute_impl<Index<ls...>, Tensor<T, fs...>, std_ext::index_sequence<ss...>> {
     constexpr static size_t lst[sizeof...(ls)] = { ls... };
     constexpr static size_t fvals[sizeof...(ls)] = {fs...};
-    using resulting_tensor = Tensor<T,fvals[count_less(lst, lst[ss])]...>;
     using resulting_index  = typename meta_argsort<Index<ls...>,Index<ss...>>::new_argseq;
+    // the elements are placed by resulting_index (the inverse of ls), so the extents must follow the same map
+    using resulting_tensor = Tensor<T,fvals[resulting_index::values[ss]]...>;
     using maxes_out_type   = Index<fvals[meta_argsort<Index<ls...>,Index<ss...>>::new_argseq::values[ss]]...>;
     static constexpr bool requires_permutation = !(is_same_v_<resulting_tensor,Tensor<T, fs...>> &&
                                                     is_sequential(resulting_index::values));
